@@ -140,6 +140,15 @@ func TLSClientAuth(opts TLSClientOptions) (*tls.Config, error) {
 			if k == nil {
 				return nil, errors.New("tls client priv key: nil RSA key")
 			}
+			// Validate dereferences the components: a key with one of them missing is unusable, not a panic
+			if k.N == nil || k.D == nil || len(k.Primes) < 2 {
+				return nil, errors.New("tls client priv key: incomplete RSA key")
+			}
+			for _, prime := range k.Primes {
+				if prime == nil {
+					return nil, errors.New("tls client priv key: incomplete RSA key")
+				}
+			}
 			if err := k.Validate(); err != nil {
 				return nil, fmt.Errorf("tls client priv key: %v", err)
 			}
@@ -147,6 +156,10 @@ func TLSClientAuth(opts TLSClientOptions) (*tls.Config, error) {
 		case *ecdsa.PrivateKey:
 			if k == nil {
 				return nil, errors.New("tls client priv key: nil ECDSA key")
+			}
+			// so does MarshalECPrivateKey
+			if k.Curve == nil || k.D == nil || k.X == nil || k.Y == nil {
+				return nil, errors.New("tls client priv key: incomplete ECDSA key")
 			}
 			var err error
 			keyBytes, err = x509.MarshalECPrivateKey(k)
